@@ -11,7 +11,7 @@ import time
 
 VERIF = os.path.dirname(os.path.dirname(os.path.abspath(__file__)))
 COQ = os.path.join(VERIF, "coq")
-MODELRUN = os.path.join(COQ, "Extract", "out", "modelrun")
+MODELRUN = os.environ.get("VERIF_MODELRUN") or os.path.join(COQ, "Extract", "out", "modelrun")
 WORK = os.path.join(VERIF, "work")
 REPO = os.environ.get("ISO_REPO", "/repo")
 NPROC = int(os.environ.get("VERIF_NPROC", "16"))
